@@ -513,12 +513,19 @@ class GateMemoizer:
         """
 
         memo_key = self._make_gate_memo_key(gate_name, gate_args, context)
-        gate = self._table.get(memo_key)
+        try:
+            gate = self._table.get(memo_key)
+        except TypeError:
+            # An argument that cannot be hashed (e.g. an array given to
+            # an untyped parameter) makes the gate unmemoizable; it is
+            # still a gate the definition gets to accept or reject.
+            return None, None
         return gate, memo_key
 
     def set(self, memo_key, gate):
         """Store the create gate in the memo table."""
-        self._table[memo_key] = gate
+        if memo_key is not None:
+            self._table[memo_key] = gate
 
     def _make_gate_memo_key(self, gate_name, gate_args, context):
         """Create a key uniquely identifying the given gate within some
